@@ -1019,7 +1019,7 @@ func (c *Ctx) oracleCheck(t ast.Node, pr *printer, mode int, what string) (strin
 
 func runC11(c *Ctx) {
 	r := c.R
-	r.Rule = "correspondence: all token sequences up to length n over 8 alphabets (operators, brackets, identifiers, literals; n = 4-5 quick, 5-7 thorough), printed random trees and token-mutated printed trees, Lean model vs parser.Parse on tree with locations / error position, and parser.Parse vs an independent stratified-grammar reference parser (accept/reject and tree) on the same inputs; Lean print vs the Go reference printer token by token; oracle: exhaustive trees of height <= 3 over one operator per precedence level and random canonical trees of height <= 6 over all node forms, printed by the documented omission rule with minimal / full / random parentheses and canonical / tight / random whitespace, parser.Parse(print t) = t ignoring locations; non-trivial = more than one token; distinct by source text"
+	r.Rule = "correspondence: all token sequences up to length n over 9 alphabets (operators, brackets, identifiers, literals; n = 4-5 quick, 5-7 thorough), printed random trees and token-mutated printed trees, Lean model vs parser.Parse on tree with locations / error position, and parser.Parse vs an independent stratified-grammar reference parser (accept/reject and tree) on the same inputs; Lean print vs the Go reference printer token by token; oracle: exhaustive trees of height <= 3 over one operator per precedence level and random canonical trees of height <= 6 over all node forms, printed by the documented omission rule with minimal / full / random parentheses and canonical / tight / random whitespace, parser.Parse(print t) = t ignoring locations; non-trivial = more than one token; distinct by source text"
 
 	c11InitAcceptWord(c)
 
@@ -1039,6 +1039,9 @@ func runC11(c *Ctx) {
 		{"members", []string{"a", ".", "?.", "not", "in", "not in", "matches", "or", "(", ")", "[", "1"}, 4, 5},
 		{"coll", []string{"[", "]", "{", "}", ",", ":", "a", "1", "'s'", "(", ")"}, 4, 6},
 		{"lit", []string{"'x'", "'['", "matches", "true", "nil", "1.5", "0x1F", "a", "(", ")", "9223372036854775808", "=", ".."}, 4, 5},
+		// string literals whose CONTENT spells an operator: operands, never operators (seed c11_7 looked the token's value
+		// up in the operator tables without asking for its kind)
+		{"opstrings", []string{"a", "'-'", "'+'", "'not'", "\"and\"", "'!'", "'**'", "'in'", "+", "1", "(", ")"}, 4, 5},
 	}
 	for _, a := range alphas {
 		n := a.nq
